@@ -75,6 +75,11 @@ CLAIMED = {
         "text": "Structural clauses of resampling and smoothing: every operand of np.concatenate in the resamplers has rank >= 1; generic code reachable from the resampler/smoother/assembler calls soma() only with type_check=False; the assembler drops one sample iff the branch's start (resp. end) point duplicates the tree node, none otherwise, and then appends the end node; smoothers store only x,y,z and only the interior 1:-1 of a detached copy; x,y,z and r are interpolated at the same positions over the same abscissae; n = ceil(L/spacing)+1 positions from 0 to L (linspace / arange + end point), per branch of the branch tree; re-assembly numbers nodes by output position with parent = predecessor, first node on the start node's new id, children continuing from the end node's new id; inputs untouched, results fresh. Equal spacing, 'length never grows' and linear radii as numeric statements are not decided.",
         "note": ASSUME,
     },
+    "C17": {
+        "technique": "axis-role inference from the statements consuming the arg-min pair + broadcast-alignment rule + decision table",
+        "text": "Only structural clauses: the roles of the arg-min pair are read from `(i, j) = unravel_index(...)` and `pid[child] = parent`; the balancing term `factor * accumulated length` must be broadcast along the parent's axis of the cost matrix (a rank-1 vector aligns with the last axis); the pair is used consistently (child count, path length = parent's + edge, connected flag, mask rows/columns); point 0 is the root with parent -1; n-1 attachments; the branching-limit test is tabulated over count?limit x root x exempt; PointsToMST passes the constant factor 0. Minimality of the total length and the greedy selection over the run-time cost matrix are NOT decided (no sound static argument in reach).",
+        "note": ASSUME,
+    },
 }
 
 NOT_BUILT = "check not built yet in this round (planned, see DESIGN.md section 4); nothing is claimed"
